@@ -257,6 +257,20 @@ STALL_S = 45        # a process that is alive but has consumed no CPU time at al
 STALL_MARK = "\n   why: stalled: the process stayed alive for %d s without consuming any CPU time (every thread blocked - a deadlock, e.g. inside the race reporter)\n" % STALL_S
 
 
+# Stages that every check (except C19's and C20's own) runs in addition to its own engines: the same functions under concurrent first use
+# (the ThreadSanitizer harness of C20, programs restricted to this property's operation kinds) and under allocation failure (the fault
+# enumerator of C19, restricted to this property's operations).  A result that is wrong only when two threads use a function for the first
+# time at once, or only after an allocation failed, is still a wrong result of that function.
+AUX = {
+    "auxC20": {"pid": "C20", "tsan": True, "enum": False, "rc_cases": {"quick": 50, "thorough": 400}, "rc_procs": {"quick": 4, "thorough": 8}},
+    "auxC19": {"pid": "C19", "tsan": False, "enum": True, "enum_shards": {"quick": 4, "thorough": 8}, "rc_cases": {"quick": 0, "thorough": 0}, "rc_procs": {"quick": 0, "thorough": 0}},
+}
+
+
+def aux_variants(pid):
+    return [] if pid in ("C19", "C20") or os.environ.get("VERIF_NO_AUX") else list(AUX)
+
+
 class Watched:
     """A child process observed for CPU progress.  poll() returns None while running, else (returncode, output)."""
     def __init__(self, p, case_base=None):
@@ -293,12 +307,13 @@ class Watched:
         return None
 
 
-def replay_verdict(binp, path, times=3, need=None):
+def replay_verdict(binp, path, times=3, need=None, extra_env=None):
     """Replays a saved case `times` times (concurrently) with the plain replay engine.  Returns (reproduces every time, text)."""
     env = dict(os.environ)
     env["ASAN_OPTIONS"] = ASAN_ENV
     env["UBSAN_OPTIONS"] = "print_stacktrace=1"
     env["TSAN_OPTIONS"] = "halt_on_error=1 exitcode=66"
+    env.update(extra_env or {})
     procs = [subprocess.Popen([binp, "replay", path], stdout=subprocess.PIPE, stderr=subprocess.STDOUT, env=env, preexec_fn=_die_with_parent) for _ in range(times)]
     text = ""
     n_bad = 0
@@ -355,6 +370,10 @@ def check(pid, tier):
     with ThreadPoolExecutor(max(1, len(variants))) as ex:      # the build variants compile side by side
         bins = dict(zip(variants, ex.map(lambda v: build_prop(pid, v, want_fuzz=want_fuzz), variants)))
     vcfg = lambda v: {**cfg, **cfg.get("variant_cfg", {}).get(v, {})}      # per-variant overrides of rc_cases / rc_procs / enum
+    aux = aux_variants(pid)
+    with ThreadPoolExecutor(max(1, len(aux))) as ex:
+        bins.update(dict(zip(aux, ex.map(lambda v: build_prop(AUX[v]["pid"], ""), aux))))
+    venv = lambda v: ({"VERIF_FAMILY": pid} if v in AUX else {})
     work = os.path.join(BUILD, "work-%s-%s%s-%d" % (pid, tier, ALT_TAG, os.getpid()))
     shutil.rmtree(work, ignore_errors=True)
     os.makedirs(work)
@@ -406,6 +425,19 @@ def check(pid, tier):
                 rep = os.path.join(work, "enum-%s-%d.json" % (v, s))
                 cmds.append(("enum:%s:%d" % (v, s), [bins[v]["prop"], "enum", "--shard", str(s), "--nshards", str(ns), "--tier", "0" if tier == "quick" else "1",
                                                        "--report", rep, "--replay-out", os.path.join(work, "enum-%s-%d.case" % (v, s))], envbase))
+    for v in aux:
+        if AUX[v]["enum"]:
+            ns = AUX[v]["enum_shards"][tier]
+            for s_ in range(ns):
+                rep = os.path.join(work, "enum-%s-%d.json" % (v, s_))
+                cmds.append(("enum:%s:%d" % (v, s_), [bins[v]["prop"], "enum", "--shard", str(s_), "--nshards", str(ns), "--tier", "0" if tier == "quick" else "1",
+                                                        "--report", rep, "--replay-out", os.path.join(work, "enum-%s-%d.case" % (v, s_))], {**envbase, **venv(v)}))
+        for i in range(AUX[v]["rc_procs"][tier]):
+            rep = os.path.join(work, "rc-%s-%d.json" % (v, i))
+            rcseed = (seed * 1000003 + i * 7919 + 77) & 0x7FFFFFFFFFFFFFFF
+            env = {**envbase, **venv(v)}
+            env["RC_PARAMS"] = "seed=%d max_success=%d max_size=%d" % (rcseed, AUX[v]["rc_cases"][tier], 700)
+            cmds.append(("rc:%s:%d" % (v, i), [bins[v]["prop"], "rc", "--report", rep, "--replay-out", os.path.join(work, "rc-%s-%d.case" % (v, i))], env))
     # 3. rapidcheck
     for v in variants:
         nproc = vcfg(v).get("rc_procs", 4)
@@ -530,13 +562,13 @@ def check(pid, tier):
             continue
         seen.add(digest)
         n_replayed += 1
-        if spec.get("tsan"):
+        if spec.get("tsan") or (v in AUX and AUX[v]["tsan"]):
             # thread programs: whether a saved case shows its failure again depends on the schedule, so it is replayed 12 times (each replay
             # repeats the case 4 times in one process) and counts when the failure is seen again at least once - the original observation
             # plus an independent second one; a sanitizer report or digest mismatch never occurs by chance on a tree without the defect
-            ok, text = replay_verdict(bins[v]["prop"], path, times=12, need=1)
+            ok, text = replay_verdict(bins[v]["prop"], path, times=12, need=1, extra_env=venv(v))
         else:
-            ok, text = replay_verdict(bins[v]["prop"], path)
+            ok, text = replay_verdict(bins[v]["prop"], path, extra_env=venv(v))
         if ok:
             if path.endswith(".hang"):
                 hang_confirmed = True
@@ -545,7 +577,7 @@ def check(pid, tier):
                 continue
             sigs.add(sig)
         if not ok:
-            notes.append("candidate from %s did not reproduce under replay (%s); not reported" % (how, "0 of 12" if spec.get("tsan") else "3 of 3 required"))
+            notes.append("candidate from %s did not reproduce under replay (%s); not reported" % (how, "0 of 12" if (spec.get("tsan") or (v in AUX and AUX[v]["tsan"])) else "3 of 3 required"))
             continue
         k = match_known(pid, text)
         if k:
@@ -578,7 +610,7 @@ def check(pid, tier):
             "labels": dict(sorted(labels.items())), "exhausted_subdomains": exhausted, "excluded_known": excluded, "discarded": discarded,
             "engines": engines, "regression_files_replayed": n_regress, "inconclusive_processes": inconclusive,
             "distinct_nontrivial_note": "union of decoded-case hashes over rapidcheck and libFuzzer processes plus the enumerators' own counts (enumerated cases are distinct by construction)",
-            "exhaustive": False, "variants": variants, "notes": notes[:10],
+            "exhaustive": False, "variants": variants + aux, "notes": notes[:10],
         },
         "assumptions": spec.get("assumptions", []),
         "wall_s": round(wall, 2), "violations": len(violations),
@@ -656,9 +688,15 @@ def main():
     if a.cmd == "replay":
         pid = a.args[0]
         rc = 0
-        for v in all_variants(PROPS[pid]):
-            b = build_prop(pid, v)
-            env = dict(os.environ); env["ASAN_OPTIONS"] = ASAN_ENV
+        todo = [(v, pid, v, {}) for v in all_variants(PROPS[pid])] + [(v, AUX[v]["pid"], "", {"VERIF_FAMILY": pid}) for v in aux_variants(pid)]
+        names = " ".join(os.path.basename(x) for x in a.args[1:])
+        for v, bp, bv, extra in todo:
+            if v in AUX and ("-" + v + "-") not in names:
+                continue           # files written by the concurrent-use / allocation-fault stages carry the stage's name
+            if v not in AUX and any(("-" + x + "-") in names for x in AUX):
+                continue
+            b = build_prop(bp, bv)
+            env = dict(os.environ); env["ASAN_OPTIONS"] = ASAN_ENV; env["TSAN_OPTIONS"] = "halt_on_error=1 exitcode=66"; env.update(extra)
             rc |= subprocess.run([b["prop"], "replay"] + a.args[1:], env=env).returncode
         return 1 if rc else 0
     if a.cmd == "baseline":
